@@ -1,11 +1,14 @@
 import CryoCat.Drv.Proto
 import CryoCat.Model.C10
-/-! driver for C10: runs `CryoCat.C10.expandSym` / `expand` (the definitions `Props/C10` is about) at `Float`; the
+/-! driver for C10: runs `CryoCat.C10.expandSymP` / `expandP` — the code's own arithmetic (polar form of the offset,
+`trig(k·360/n)`), proved equal to `expandSym` / `expand` under exact services (`expandSymP_eq`, `expandP_eq`; over ℝ:
+`real_expandP_eq`) — at `Float`; the
 rounding service is `CryoCat.C10.ratRound` (proved: `ratRound_spec`, `ratRound_ties`) on the EXACT rational value of
 the float — what `decimal.Decimal(float)` sees.
-request  `{"op":"expand","sym":{"str":[code points]} | {"num":<nat>},"s":[3 float bit patterns],"rows":[[20 bit patterns in Field.all order] …]}`
-         (`"n":<nat>` instead of `"sym"` is accepted as `{"num":n}`)
-response `{"kind":"cyclic"|"dihedral"|"raises"|"unbound","n":<nat>,"subs":[[20 field bits ++ 9 orientation-matrix bits (row major)] …] | null}`
+request  `{"op":"expand","sym":{"str":[code points]} | {"num":<int>} | {"numf":<float bit pattern>},"s":[3 float bit patterns],"rows":[[20 bit patterns in Field.all order] …]}`
+         (`"num"`: a Python int / numpy integer; `"numf"`: a float / numpy floating — `int()` of it is taken by the MODEL (`truncInt` on the exact
+         value, NaN/inf = `Sym.nonfinite`); `"n":<nat>` instead of `"sym"` is accepted as `{"num":n}`)
+response `{"kind":"cyclic"|"dihedral"|"raises"|"unbound"|"negative","n":<nat>,"subs":[[20 field bits ++ 9 orientation-matrix bits (row major)] …] | null}`
 request  `{"op":"round","xs":[bits …]}` → `{"r":[ints]}` (Decimal ROUND_HALF_UP of the exact values)
 request  `{"op":"asis","n":<nat>}` → `{"runs":bool,"len":nat|null}` (model of the code before repair 837c2ef) -/
 namespace CryoCat.Drv.C10
@@ -40,6 +43,11 @@ def roundF (v : Float) : Float := if v.isFinite then Float.ofInt (roundInt v) el
 
 def svc : Svc Float := { trig := trigDeg, round := roundF }
 
+/-- numpy's `sqrt`, `arctan2`, `deg2rad`, `cos`, `sin` at binary64 (libm) -/
+def polar : PolarSvc Float :=
+  { sqrt := Float.sqrt, atan2 := fun y x => Float.atan2 y x, deg2rad := fun d => d * (3.141592653589793 / 180.0),
+    cosr := Float.cos, sinr := Float.sin }
+
 def parseNums (a : Array Json) : Option (List Nat) := a.toList.mapM (fun c => (c.getNat?).toOption)
 
 def parseRows (a : Array Json) : Option (List (List Nat)) :=
@@ -53,17 +61,21 @@ def subJson (u : SubU Float) : Json :=
 def parseSymArg (j : Json) : Option Sym :=
   match j.getObjVal? "sym" with
   | .ok o =>
-    match getArr? o "str" >>= parseNums, getNat? o "num" with
-    | some cps, _ => some (.str (cps.map Char.ofNat))
-    | none, some n => some (.num n)
-    | none, none => none
-  | .error _ => (getNat? j "n").map Sym.num
+    match getArr? o "str" >>= parseNums, getInt? o "num", getNat? o "numf" with
+    | some cps, _, _ => some (.str (cps.map Char.ofNat))
+    | none, some z, _ => some (.num (z : Rat))
+    | none, none, some b =>
+      let x := floatOfBits b
+      some (if x.isFinite then .num (ratOfFloat x) else .nonfinite)
+    | none, none, none => none
+  | .error _ => (getNat? j "n").map (fun n => Sym.num (n : Rat))
 
 def kindJson : SymKind → List (String × Json)
   | .cyclic n => [("kind", "cyclic"), ("n", (n : Json))]
   | .dihedral n => [("kind", "dihedral"), ("n", (n : Json))]
   | .raises => [("kind", "raises"), ("n", Json.null)]
   | .unbound => [("kind", "unbound"), ("n", Json.null)]
+  | .negative => [("kind", "negative"), ("n", Json.null)]
 
 def handle (j : Json) : Json :=
   match getStr? j "op" with
@@ -83,7 +95,7 @@ def handle (j : Json) : Json :=
       if rows.any (fun r => r.length != 20) then err "bad-args" else
       let s : V3 Float := ⟨floatOfBits sx, floatOfBits sy, floatOfBits sz⟩
       let l : List (Particle Float) := rows.map (fun r => Particle.ofList 0.0 (r.map floatOfBits))
-      let subs : Json := match expandSym svc sym s l with
+      let subs : Json := match expandSymP svc polar sym s l with
         | some us => Json.arr (us.map subJson).toArray
         | none => Json.null
       Json.mkObj (kindJson (parseSym sym) ++ [("subs", subs)])
